@@ -46,6 +46,36 @@ class Finding:
             return f"R-ATOM|{d['entry']}|{norm_text(w.get('key_text', w.get('text', '')))} >> {norm_text(r.get('key_text', r.get('text', '')))}"
         return None
 
+    @property
+    def abs_key(self) -> Optional[str]:
+        """Third identity of an atomicity finding, free of source text: the user operation analysed, WHICH state is left
+        changed (the first two components of the state path: `Broker._assets`, `SqueethMarket.vault`, `ACTION-LOG`) and
+        WHICH rejection is reached afterwards (function containing it, exception class, and the callee when the rejection
+        comes out of a call).  Caching `self.vault[k]` in a local, or reading a property once, changes the text of a
+        write but not what is written before which rejection."""
+        d = self.detail
+        if not (self.rule == "R-ATOM" and isinstance(d, dict) and d.get("entry") and isinstance(d.get("write"), dict)
+                and isinstance(d.get("rejection"), dict)):
+            return None
+        path = ".".join(str(d["write"].get("path", "")).split(".")[:2])
+        r = d["rejection"]
+        kind = "raise"
+        txt = r.get("text", "")
+        try:
+            import ast as _ast
+            st = _ast.parse(txt).body[0]
+            call = st.value if isinstance(st, (_ast.Expr, _ast.Assign, _ast.AugAssign, _ast.AnnAssign, _ast.Return)) else None
+            if isinstance(call, _ast.Call):
+                fn = call.func
+                kind = "call " + (fn.attr if isinstance(fn, _ast.Attribute) else getattr(fn, "id", "?"))
+            elif isinstance(st, _ast.Assert):
+                kind = "assert"
+            elif not isinstance(st, _ast.Raise):
+                kind = "stmt"
+        except Exception:  # noqa
+            kind = "gate" if txt.startswith("@write_func") else "?"
+        return f"R-ATOM|{d['entry']}|{path}|{r.get('func', '')}:{r.get('exception', '')}:{kind}"
+
     def to_json(self) -> dict:
         return {"property": self.prop, "rule": self.rule, "function": self.func, "construct": self.construct,
                 "where": self.where, "message": self.message, "key": self.key, "detail": self.detail}
@@ -125,6 +155,7 @@ def finish(res: Result, tier: str, seed: int, wall_s: float, out_dir: Optional[s
     known = load_known()
     known_keys = {k["key"]: k for k in known.get("known", []) if k.get("property") == res.prop}
     known_alts = {k["alt"]: k for k in known.get("known", []) if k.get("property") == res.prop and k.get("alt")}
+    known_abs = {k["abs"]: k for k in known.get("known", []) if k.get("property") == res.prop and k.get("abs")}
     violations = []
     matched = []
     hit_keys = set()
@@ -136,6 +167,10 @@ def finish(res: Result, tier: str, seed: int, wall_s: float, out_dir: Optional[s
             # the same (operation, write, rejection) as a listed finding, only located in another function now
             matched.append((f, known_alts[f.alt_key]))
             hit_keys.add(known_alts[f.alt_key]["key"])
+        elif f.abs_key is not None and f.abs_key in known_abs:
+            # the same operation leaves the same state changed before the same rejection; only the source text differs
+            matched.append((f, known_abs[f.abs_key]))
+            hit_keys.add(known_abs[f.abs_key]["key"])
         else:
             violations.append(f)
     stale_known = [k for k in known_keys if k not in hit_keys]
